@@ -139,77 +139,13 @@ def run(ctx, ck):
         ck.ob('R-KIND.geo-tag', q + '|not-reassigned', not stores, f.loc(), 'geo_tag is never reassigned')
     ck.floor('uses of geo_tag', n_uses, 8)
 
-    # registered index in register_source
-    f = m.func('mininec.Mininec.register_source')
-    fl = ctx.flow(f)
-    regs = calls_in(f.node, attr='register')
-    ck.floor('source.register calls', len(regs), 1)
-    from ..cfg import if_chain_preds
-    from ..dataflow import expand_call_roots
-    forms = {}
-    direct = len(regs) == 2
-    for c in regs:
-        arg = fl.inline(c.args[1], fl.node_id_of(c)) if len(c.args) > 1 else None
-        # tagged form = the registered index depends on the tag (independent of how the two forms
-        # are laid out: if/else, early return, ...)
-        r_arg = fl.roots(c.args[1], fl.node_id_of(c)) if len(c.args) > 1 else set()
-        tagged = ('param', 'geo_tag') in r_arg
-        if not direct:
-            # index computed by a helper: it must at least derive from the pulse number given; the
-            # helper's list accesses are judged by R-BOUNDS.pulse-index
-            r = expand_call_roots(ctx, f, fl.roots(c.args[1], fl.node_id_of(c)))
-            ok = ('param', 'pulse') in r
-            ck.ob('R-KIND.registered-index', '%s|via-helper' % f.qual, ok, f.loc(c),
-                  'registers %s (derived from the pulse number: %s)' % (norm(arg), ok))
-            continue
-        forms[tagged] = norm(arg) if arg is not None else '?'
-        if tagged:
-            ok = norm(arg) in ('self.geo.by_tag.get(geo_tag).pulses[pulse].idx', 'self.geo.by_tag[geo_tag].pulses[pulse].idx')
-            if not ok:
-                # <object>.pulses[pulse].idx with the object looked up through by_tag[geo_tag]
-                a_ = c.args[1]
-                if isinstance(a_, ast.Attribute) and a_.attr == 'idx' and isinstance(a_.value, ast.Subscript) \
-                   and norm(a_.value.slice) == 'pulse' and isinstance(a_.value.value, ast.Attribute) \
-                   and a_.value.value.attr == 'pulses':
-                    r_ = fl.roots(a_.value.value.value, fl.node_id_of(c))
-                    ok = ('param', 'geo_tag') in r_ and any(
-                        (x[0] == 'attr' and x[1].endswith('by_tag')) or
-                        (x[0] == 'call' and 'by_tag' in x[1]) for x in r_)
-        else:
-            ok = norm(arg) == 'pulse'
-        ck.ob('R-KIND.registered-index', '%s|%s' % (f.qual, 'tagged' if tagged else 'absolute'), ok, f.loc(c),
-              'registers %s' % norm(arg))
-    if direct:
-        ck.ob('R-KIND.registered-index', f.qual + '|both-forms', set(forms) == {True, False}, f.loc(),
-              'tagged and absolute forms both present: %s' % forms)
-    from ._bounds import check_pulse_bounds
+    # registered / loaded pulse and the range checks, on the symbolic walk (_addressing.py)
+    from ._addressing import check_registered_index, check_pulse_bounds
+    nreg = check_registered_index(ctx, ck)
+    ck.floor('source.register calls', nreg, 1)
     ck.rule('R-BOUNDS.pulse-index', 'user pulse number checked against the length of the list it indexes')
     nb = check_pulse_bounds(ctx, ck, ['mininec.Mininec.register_source', 'mininec.Mininec.register_load'])
     ck.floor('user-indexed pulse lists', nb, 1)
-    # register_load
-    g = m.func('mininec.Mininec.register_load')
-    gfl = ctx.flow(g)
-    adds = [c for c in calls_in(g.node, attr='add_pulse') if 'self.pulses[' in norm(c.args[0])]
-    ok = len(adds) == 1
-    why = 'expected one load.add_pulse(self.pulses[p])'
-    if ok:
-        a = adds[0].args[0]
-        pv = norm(a.slice)
-        ds = [d for d in gfl.def_exprs(pv, gfl.node_id_of(adds[0])) if d[0] == 'assign']
-        vals = sorted(norm(gfl.inline(d[1], d[2])) for d in ds)
-        if vals == sorted(['pulse', 'self.geo.by_tag[geo_tag].pulses[pulse].idx']):
-            why = 'pulse loaded = self.pulses[p] with p in %s' % vals
-        else:
-            r = set()
-            for d in ds:
-                r |= expand_call_roots(ctx, g, gfl.roots(d[1], d[2]))
-            ok = ('param', 'pulse') in r
-            why = 'pulse loaded = self.pulses[p], p = %s (derived from the pulse number: %s)' % (vals, ok)
-    ck.ob('R-KIND.registered-index', g.qual, ok, g.loc(adds[0] if adds else None), why)
-    # whole-object attachment resolves the tag through by_tag
-    whole = [s for s in walk_no_nested(g.node) if isinstance(s, ast.Assign) and norm(s.value) == 'self.geo.by_tag[geo_tag]']
-    ck.ob('R-KIND.registered-index', g.qual + '|whole-object', len(whole) >= 1, g.loc(),
-          'attach-to-object resolves the object through by_tag[geo_tag]')
 
     # ---------------------------------------------------------------- D2 output
     n_out = 0
